@@ -700,7 +700,16 @@ def builtin(I, name, a, kwargs, node, _no_override=False):
         if isinstance(v, ListOf):
             # the elements of a symbolic list (one per record / line) change places: order is part of the value
             return tag_leaves(I, v, "reordered:" + name + ("[" + ",".join(sorted(kwargs)) + "]" if kwargs else ""))
-        if isinstance(v, ListLit) and name == "sorted":
+        if isinstance(v, (ListLit, TupS)) and name == "sorted":
+            keyf = kwargs.get("key")
+            rev = kwargs.get("reverse", Const(False))
+            keys = [to_py(I.call(keyf, [x], {}, node)) if keyf is not None else to_py(x) for x in v.elts]
+            if all(k is not _NOPY for k in keys) and isinstance(rev, Const):
+                try:
+                    order = sorted(range(len(keys)), key=lambda i: keys[i], reverse=bool(rev.v))
+                except TypeError as e:
+                    raise _Raise.of(e, "sorted")
+                return ListLit([v.elts[i] for i in order])
             return Top("sorted() of non-constant elements", deps=I.leaves(v))
         return v
     if name in ("min", "max", "sum", "any", "all"):
@@ -724,6 +733,8 @@ def builtin(I, name, a, kwargs, node, _no_override=False):
         return Top("type()")
     if name == "callable":
         return Const(isinstance(a[0], Fn))
+    if name == "slice" and a and all(isinstance(x, Const) for x in a) and not kwargs:
+        return Const(slice(*[x.v for x in a]))
     if name == "range":
         if all(isinstance(x, Const) for x in a):
             return ListLit([Const(i) for i in range(*[x.v for x in a])])
